@@ -6,7 +6,9 @@
 EXTENDS Integers, Sequences, TLC, Json
 CONSTANTS Depth, RcvMode, SndMode, PeerH1, PeerH3, Side   \* PeerH*: the handles the peer assigns to the two links
 
-Alphabet == {"Send1", "Send3", "SendSettled", "D0acc", "D1rej", "D01rel", "DAllmod", "D2acc", "D0accU", "D1relU", "D0recvU", "Await0", "Await1", "Await2"}
+Alphabet == {"Send1", "Send3", "SendSettled", "D0acc", "D1rej", "D01rel", "DAllmod", "D2acc", "D0accU", "D1relU", "D0recvU", "Await0", "Await1", "Await2",
+             \* the first link is closed with its deliveries unsettled: a later range that also names them must still resolve the other link's
+             "Close1"}
 VARIABLES script
 Init == script = <<>>
 Next == Len(script) < Depth /\ \E e \in Alphabet : script' = Append(script, e)
@@ -45,6 +47,7 @@ Body(sc, i, ns) ==
     [] e = "D0accU" -> <<Disp(0, 0, FALSE, "accepted")>> \o Body(sc, i + 1, ns)
     [] e = "D1relU" -> <<Disp(1, 1, FALSE, "released")>> \o Body(sc, i + 1, ns)
     [] e = "D0recvU" -> <<Disp(0, 1, FALSE, "received")>> \o Body(sc, i + 1, ns)
+    [] e = "Close1" -> <<[e |-> "ADetach", l |-> "L1", closed |-> TRUE], [e |-> "PFrame", perf |-> "detach", ch |-> 3, needs_prev |-> TRUE, f |-> [h |-> PeerH1, closed |-> TRUE, err |-> ""]]>> \o Body(sc, i + 1, ns)
     [] e = "Await0" -> <<[e |-> "AAwaitOutcome", nth |-> 0]>> \o Body(sc, i + 1, ns)
     [] e = "Await1" -> <<[e |-> "AAwaitOutcome", nth |-> 1]>> \o Body(sc, i + 1, ns)
     [] e = "Await2" -> <<[e |-> "AAwaitOutcome", nth |-> 2]>> \o Body(sc, i + 1, ns)
